@@ -370,8 +370,10 @@ def main():
                         "model and implementation agree beyond the sampled inputs (tested, not proved)"],
         "wall_s": round(time.time() - t0, 2), "violations": len(reported),
     }
-    os.makedirs(os.path.join(ROOT, "evidence"), exist_ok=True)
-    json.dump(ev, open(os.path.join(ROOT, "evidence", "%s.json" % prop), "w"), indent=1)
+    # a run without the proof step (development only) is not evidence: keep it out of evidence/
+    evdir = os.path.join(BUILD, "evidence_skip_proof") if (args.skip_proof or args.replay) else os.path.join(ROOT, "evidence")
+    os.makedirs(evdir, exist_ok=True)
+    json.dump(ev, open(os.path.join(evdir, "%s.json" % prop), "w"), indent=1)
     print("timing: compile %.1fs run %.1fs shrink %.1fs" % (stats.get("t_compile", 0), stats.get("t_run", 0), time.time() - ts))
     print("%s %s: %d units, %d scripts, %d steps, %d lines compared, %d disagreements, %d violations, %d known; %.1fs" % (
         prop, tier, stats["units"], stats["scripts"], stats["steps"], stats["lines_compared"], stats["disagreements"], len(reported), len(known_hits), time.time() - t0))
